@@ -6,6 +6,7 @@ package impl
 
 import (
 	"reflect"
+	"unicode/utf8"
 
 	"google.golang.org/protobuf/encoding/protowire"
 	"google.golang.org/protobuf/internal/errors"
@@ -795,4 +796,45 @@ func asMessage(v reflect.Value) protoreflect.ProtoMessage {
 		return m
 	}
 	return legacyWrapMessage(v).Interface()
+}
+
+// appendStringSliceValueValidateUTF8 encodes a []string value as a repeated String,
+// rejecting elements that are not valid UTF-8.
+func appendStringSliceValueValidateUTF8(b []byte, listv protoreflect.Value, wiretag uint64, opts marshalOptions) ([]byte, error) {
+	list := listv.List()
+	for i, llen := 0, list.Len(); i < llen; i++ {
+		v := list.Get(i)
+		b = protowire.AppendVarint(b, wiretag)
+		b = protowire.AppendString(b, v.String())
+		if !utf8.ValidString(v.String()) {
+			return b, errInvalidUTF8{}
+		}
+	}
+	return b, nil
+}
+
+// consumeStringSliceValueValidateUTF8 wire decodes a []string value as a repeated String,
+// rejecting elements that are not valid UTF-8.
+func consumeStringSliceValueValidateUTF8(b []byte, listv protoreflect.Value, _ protowire.Number, wtyp protowire.Type, opts unmarshalOptions) (_ protoreflect.Value, out unmarshalOutput, err error) {
+	list := listv.List()
+	if wtyp != protowire.BytesType {
+		return protoreflect.Value{}, out, errUnknown
+	}
+	v, n := protowire.ConsumeBytes(b)
+	if n < 0 {
+		return protoreflect.Value{}, out, errDecode
+	}
+	if !utf8.Valid(v) {
+		return protoreflect.Value{}, out, errInvalidUTF8{}
+	}
+	list.Append(protoreflect.ValueOfString(string(v)))
+	out.n = n
+	return listv, out, nil
+}
+
+var coderStringSliceValueValidateUTF8 = valueCoderFuncs{
+	size:      sizeStringSliceValue,
+	marshal:   appendStringSliceValueValidateUTF8,
+	unmarshal: consumeStringSliceValueValidateUTF8,
+	merge:     mergeListValue,
 }
